@@ -7,6 +7,7 @@ unit operand concrete, and compared with the SI oracle in sa/spec/units_si.py.
 from __future__ import annotations
 
 import ast
+import math
 from fractions import Fraction
 from typing import Dict, Optional
 
@@ -16,6 +17,7 @@ from ..check import Variant
 from ..loader import AnalysisError, Program, dotted
 from ..spec import units_si
 from . import common as C
+from .c16 import value_at
 
 ID = 'C06'
 DECIDED = [
@@ -25,6 +27,10 @@ DECIDED = [
     'T2 each to_raw branch is the SI map (linear / affine / tangent) within 1e-6 relative',
     'T3 from_raw(to_raw(v)) normalises to v exactly and every A->B conversion factors through the base unit '
     '(__init__ stores to_raw, get_in returns from_raw of the stored magnitude)',
+    'T4 the public path, exhaustively: Dim(v, u) stores to_raw(v, u) for every one of the 41 units and every v (a '
+    'stored magnitude that depends on a test of the value is refuted); get_in / >> / convert + unit_value / << + '
+    'unit_value read from_raw of that magnitude in every unit of the dimension, and convert / << leave the '
+    'magnitude as given; no method on that path is memoised',
 ]
 NOT_DECIDED = ['"within a few ulps": floating-point rounding of the factor chains is a runtime quantity']
 
@@ -79,6 +85,7 @@ def run(prog: Program, rep, thorough: bool) -> None:
     rep.rule('C06.T1', 'dispatch sets agree per dimension and cover the enum', 7 * 4 + 2)
     rep.rule('C06.T2', 'each unit branch equals its SI definition within 1e-6', 41)
     rep.rule('C06.T3', 'from_raw o to_raw = id; conversions factor through the stored base magnitude', 41 + 2)
+    rep.rule('C06.T4', 'the public path: construction stores to_raw for every unit; every accessor reads from_raw of it', 41 * 3)
     members = C.unit_members(prog)
     dims = C.dimension_classes(prog)
     umod = prog.module(C.M_UNIT)
@@ -289,10 +296,114 @@ def run(prog: Program, rep, thorough: bool) -> None:
         else:
             rep.fail('C06.T3', umod.path, rshift.node.lineno, 'AbstractDimension', '__rshift__',
                      f'`q >> u` returns {out3!r}, not from_raw(self._value, units) = {want!r}')
+    _public_path(prog, rep, ev, ctx, umod, ucls, members, dims, declared, to_forms, v)
     rep.extra['exhaustive'] = True
     rep.extra['normal_forms'] = samples
     rep.extra['units'] = len(members)
     rep.extra['dimensions'] = len(dims)
+
+
+MEMO_DECORATORS = ('lru_cache', 'cache', 'cached_property')
+SAMPLE_V = (0, 0.5, -0.25, 1, 3)
+
+
+def _public_path(prog, rep, ev, ctx, umod, ucls, members, dims, declared, to_forms, v) -> None:
+    """T4: what a caller actually writes - Dim(v, u), then `>> u2`, get_in(u2), convert(u2).unit_value, `<< u2` -
+    for every dimension and every pair of its units, goes through to_raw_u and from_raw_u2 of the stored magnitude."""
+    for dname, ci in sorted(dims.items()):
+        units_here = sorted(declared[dname])
+        # memoisation on the conversion path: the memo outlives `<<` (which relabels the same object) or conflates
+        # a number with a quantity that compares equal to it
+        for mname in ('__init__', 'to_raw', 'from_raw', 'get_in', 'convert', 'unit_value', 'units', 'raw_value',
+                      '__rshift__', '__lshift__', '__rlshift__'):
+            f = prog.find_method(ci, mname)
+            if f is None:
+                continue
+            for d in getattr(f.node, 'decorator_list', []):
+                dn = dotted(d.func if isinstance(d, ast.Call) else d) or ''
+                if dn.split('.')[-1] in MEMO_DECORATORS:
+                    rep.fail('C06.T4', f.module.path, f.node.lineno, f.qualname, f'memo:{mname}',
+                             f'{f.qualname} is memoised ({dn}): quantities are relabelled in place by `<<` / convert and '
+                             f'compare equal to plain numbers, so a remembered result is served for another unit or value')
+        init = prog.find_method(ci, '__init__')
+        for uname in units_here:
+            u = EnumVal(ucls, uname, members[uname])
+            st = State()
+            try:
+                obj = ev.construct(ci, [v, u], {}, st, ctx)
+            except Undecided as exc:
+                rep.undecided('C06.T4', init.where, f'{dname}(v, {uname})', f'constructor not evaluable: {exc}')
+                continue
+            stored = st.heap[obj.oid].get('_value') if isinstance(obj, Inst) else None
+            direct = to_forms[dname].get(uname)
+            if stored is None or direct is None:
+                rep.undecided('C06.T4', init.where, f'{dname}(v, {uname})', 'no stored magnitude to read')
+                continue
+            # compared by sampling the two guarded values at chosen v (the guards' normal forms are evaluated at the
+            # points, never the code); for angles the points stay within one turn (quantifier of C06)
+            bad = None
+            unread = None
+            for x in SAMPLE_V:
+                env = {'v': x, 'pi': math.pi}
+                a, b = value_at(stored, env), value_at(direct, env)
+                if not (isinstance(a, Scalar) and isinstance(b, Scalar)):
+                    unread = f'{a!r} / {b!r} at v = {x}'
+                    break
+                try:
+                    fa, fb = a.rf.evalf(env), b.rf.evalf(env)
+                except (KeyError, ZeroDivisionError, ValueError) as exc:
+                    unread = f'not evaluable at v = {x}: {exc}'
+                    break
+                if abs(fa - fb) > 1e-12 * max(1.0, abs(fb)):
+                    bad = (x, a, b)
+                    break
+            if unread:
+                rep.undecided('C06.T4', init.where, f'{dname}(v, {uname})', f'stored magnitude not readable: {unread}')
+            elif bad:
+                rep.fail('C06.T4', umod.path, init.node.lineno, init.qualname, f'{dname}.{uname}:stored',
+                         f'{dname}({bad[0]}, {uname}) stores {bad[1]!r} as its magnitude, but to_raw({bad[0]}, {uname}) is '
+                         f'{bad[2]!r}: construction does not store to_raw(value, units) for every value')
+            else:
+                rep.ok('C06.T4', init.where, f'{dname}(v, {uname}) stores to_raw(v, {uname}) at v in {SAMPLE_V}')
+        # reading back in every unit, through each public accessor
+        u0 = EnumVal(ucls, units_here[0], members[units_here[0]])
+        f_from = prog.find_method(ci, 'from_raw')
+        for uname in units_here:
+            u2 = EnumVal(ucls, uname, members[uname])
+            st0 = State()
+            want, _ = ev.call_value(f_from, [S('raw'), u2], self_val=ev.new_inst(st0, ci, {}), st=st0)
+            if not isinstance(want, Scalar):
+                continue
+            for acc in ('get_in', '__rshift__', 'convert', '__lshift__'):
+                f = prog.find_method(ci, acc)
+                if f is None:
+                    continue
+                st = State()
+                q = ev.new_inst(st, ci, {'_value': S('raw'), '_defined_units': u0})
+                try:
+                    out, st = ev.call_value(f, [u2], self_val=q, st=st)
+                    if acc in ('convert', '__lshift__'):
+                        if not isinstance(out, Inst):
+                            rep.undecided('C06.T4', f.where, f'{dname} {acc}({uname})', f'returns {out!r}')
+                            continue
+                        uv = prog.find_method(ci, 'unit_value')
+                        raw_after = value_at(st.heap[out.oid].get('_value'), {'raw': 0.5, 'pi': math.pi})
+                        out, st = ev.call_value(uv, [], self_val=out, st=st)
+                        if not (isinstance(raw_after, Scalar) and raw_after.rf.equals(A.sym('raw'))):
+                            rep.fail('C06.T4', umod.path, f.node.lineno, f.qualname, f'{dname}.{uname}:{acc}:magnitude',
+                                     f'after {acc}({uname}) the stored magnitude is {raw_after!r}, no longer the one given: '
+                                     f'A -> B -> C then differs from A -> C by the rounding of the intermediate step')
+                            continue
+                except Undecided as exc:
+                    rep.undecided('C06.T4', f.where, f'{dname} {acc}({uname})', f'not evaluable: {exc}')
+                    continue
+                if isinstance(out, Scalar) and out.rf.equals(want.rf):
+                    rep.ok('C06.T4', f.where, f'{dname}: {acc}({uname}) reads from_raw(magnitude, {uname})')
+                elif isinstance(out, Scalar):
+                    rep.fail('C06.T4', umod.path, f.node.lineno, f.qualname, f'{dname}.{uname}:{acc}',
+                             f'a {dname} read through {acc}({uname}) gives {out!r}, not from_raw(magnitude, {uname}) = {want!r}')
+                else:
+                    rep.undecided('C06.T4', f.where, f'{dname} {acc}({uname})', f'result {out!r} not readable')
 
 
 U = 'py_ballisticcalc/unit.py'
